@@ -5,7 +5,7 @@ import ScrutModel.Lemmas.UpdateRunFront
 
 The hypothesis "IF the written document parses" of the document-level theorems (U3, U4), discharged: the tokens
 of the written document are those of the original (`Reread`); a line, a front-matter, a foreign block is accepted
-as before; the configuration of a scrut block is accepted as before (`CfgBlankLed`, `Yaml.parseFlow_skipWs`); the
+as before; the configuration of a scrut block is accepted as before (`blankStart_eq_skipWs`, `Yaml.parseFlow_skipWs`); the
 code lines of a rewritten block are the lines of the text of its outcome -- the command lines, then expectation
 lines that compile and at most one exit code line, the line behind the command no continuation --, which the
 line parser accepts (`addAll_after`).
@@ -79,7 +79,6 @@ theorem stepTok_test_cfg {env : Env} {st st2 : PState} {lang : Markdown.Line} {c
 
 /-- the configuration text `update` writes is accepted if the original one is -/
 theorem testCfgOk_written {cfg cfg' : Numbered} (hw : cfg'.map (·.2) = writtenCfg cfg)
-    (hg : trimStart (joinNumbered cfg) = Yaml.skipWs (joinNumbered cfg))
     (h : cfg.isEmpty = true ∨ testCfgOk (joinNumbered cfg) = true) :
     cfg'.isEmpty = true ∨ testCfgOk (joinNumbered cfg') = true := by
   unfold writtenCfg at hw
@@ -101,11 +100,11 @@ theorem testCfgOk_written {cfg cfg' : Numbered} (hw : cfg'.map (·.2) = writtenC
     | [], hw => simp at hw
     | [a], hw =>
       right
-      have ha : a.2 = trimStart (joinNumbered cfg) := by simpa using hw
+      have ha : a.2 = blankStart (joinNumbered cfg) := by simpa using hw
       have e' : joinNumbered [a] = a.2 := by simp [joinNumbered, LineParser.joinNl]
       rw [e', ha]
       unfold testCfgOk at h' ⊢
-      rw [hg, Yaml.parseFlow_skipWs]
+      rw [blankStart_eq_skipWs, Yaml.parseFlow_skipWs]
       exact h'
     | _ :: _ :: _, hw => simp at hw
 
@@ -185,14 +184,13 @@ theorem parseTokens_reread {gens : List (Option (List Char))} {k : Nat} {toks to
     ∀ (st st' st1 : PState), Markdown.Clean st.lp → Markdown.Clean st'.lp →
       parseTokens parseEnv st toks = .ok st1 →
       cfgTexts toks' = (cfgsOf toks).map writtenCfg →
-      (∀ c ∈ cfgsOf toks, trimStart (joinNumbered c) = Yaml.skipWs (joinNumbered c)) →
       (∀ (j : Nat) (g : List Char), gens[j]? = some (some g) → LinesParse expOk (splitLines g)) →
       (∀ t ∈ toks', CodeNumbered t) →
       ∃ st1', parseTokens parseEnv st' toks' = .ok st1' := by
   induction h with
-  | nil k => intro st st' st1 _ _ _ _ _ _ _; exact ⟨st', rfl⟩
+  | nil k => intro st st' st1 _ _ _ _ _ _; exact ⟨st', rfl⟩
   | line k i i' l r r' _ ih =>
-    intro st st' st1 hc hc' hp hcw hg hgens hnum
+    intro st st' st1 hc hc' hp hcw hgens hnum
     obtain ⟨st2, h1, h2⟩ := parseTokens_cons_ok hp
     have hc2 := (stepTok_inv parseEnv st st2 hc _ h1).1
     obtain ⟨st2', h1', hc2'⟩ : ∃ st2', stepTok parseEnv st' (.line i' l) = .ok st2' ∧ Markdown.Clean st2'.lp := by
@@ -201,19 +199,19 @@ theorem parseTokens_reread {gens : List (Option (List Char))} {k : Nat} {toks to
       | some title => exact ⟨_, rfl, ⟨hc'.cmd, hc'.exps, hc'.code, hc'.osi, hc'.amc⟩⟩
       | none => exact ⟨_, rfl, hc'⟩
     obtain ⟨st1', hh⟩ := ih st2 st2' st1 hc2 hc2' h2 (by simpa only [cfgTexts, cfgsOf] using hcw)
-      (by simpa only [cfgsOf] using hg) hgens (fun t ht => hnum t (by simp [ht]))
+      hgens (fun t ht => hnum t (by simp [ht]))
     exact ⟨st1', parseTokens_cons_of h1' hh⟩
   | front k ls ls' r r' hl _ ih =>
-    intro st st' st1 hc hc' hp hcw hg hgens hnum
+    intro st st' st1 hc hc' hp hcw hgens hnum
     obtain ⟨st2, h1, h2⟩ := parseTokens_cons_ok hp
     have hc2 := (stepTok_inv parseEnv st st2 hc _ h1).1
     obtain ⟨st2', h1', hc2'⟩ : ∃ st2', stepTok parseEnv st' (.docConfig ls') = .ok st2' ∧ Markdown.Clean st2'.lp :=
       ⟨{ st' with docConfigs := st'.docConfigs ++ [joinNumbered ls'] }, by simp [stepTok, parseEnv], hc'⟩
     obtain ⟨st1', hh⟩ := ih st2 st2' st1 hc2 hc2' h2 (by simpa only [cfgTexts, cfgsOf] using hcw)
-      (by simpa only [cfgsOf] using hg) hgens (fun t ht => hnum t (by simp [ht]))
+      hgens (fun t ht => hnum t (by simp [ht]))
     exact ⟨st1', parseTokens_cons_of h1' hh⟩
   | verbatim k s s' lang ls r r' _ ih =>
-    intro st st' st1 hc hc' hp hcw hg hgens hnum
+    intro st st' st1 hc hc' hp hcw hgens hnum
     obtain ⟨st2, h1, h2⟩ := parseTokens_cons_ok hp
     have hc2 := (stepTok_inv parseEnv st st2 hc _ h1).1
     have hlang : lang.isEmpty = false := by
@@ -223,29 +221,29 @@ theorem parseTokens_reread {gens : List (Option (List Char))} {k : Nat} {toks to
     obtain ⟨st2', h1', hc2'⟩ : ∃ st2', stepTok parseEnv st' (.verbatim s' lang ls) = .ok st2' ∧ Markdown.Clean st2'.lp :=
       ⟨st', by simp [stepTok, hlang], hc'⟩
     obtain ⟨st1', hh⟩ := ih st2 st2' st1 hc2 hc2' h2 (by simpa only [cfgTexts, cfgsOf] using hcw)
-      (by simpa only [cfgsOf] using hg) hgens (fun t ht => hnum t (by simp [ht]))
+      hgens (fun t ht => hnum t (by simp [ht]))
     exact ⟨st1', parseTokens_cons_of h1' hh⟩
   | testNoCode k lang cfg cfg' cm cm' r r' _ _ _ ih =>
-    intro st st' st1 hc hc' hp hcw hg hgens hnum
+    intro st st' st1 hc hc' hp hcw hgens hnum
     obtain ⟨st2, h1, h2⟩ := parseTokens_cons_ok hp
     have hc2 := (stepTok_inv parseEnv st st2 hc _ h1).1
     simp only [cfgTexts, cfgsOf, List.map_cons, List.cons.injEq] at hcw
     obtain ⟨st2', h1', hc2'⟩ := stepTok_test_ok parseEnv st' hc' lang cfg' cm' []
-      (testCfgOk_written hcw.1 (hg cfg (by simp [cfgsOf])) (stepTok_test_cfg h1)) (Or.inl rfl)
+      (testCfgOk_written hcw.1 (stepTok_test_cfg h1)) (Or.inl rfl)
     obtain ⟨st1', hh⟩ := ih st2 st2' st1 hc2 hc2' h2 hcw.2
-      (fun c hc0 => hg c (by simp [cfgsOf, hc0])) hgens (fun t ht => hnum t (by simp [ht]))
+      hgens (fun t ht => hnum t (by simp [ht]))
     exact ⟨st1', parseTokens_cons_of h1' hh⟩
   | testCode k lang cfg cfg' cm cm' cd cd' g r r' hcd hgk _ _ hcd' hne' _ ih =>
-    intro st st' st1 hc hc' hp hcw hg hgens hnum
+    intro st st' st1 hc hc' hp hcw hgens hnum
     obtain ⟨st2, h1, h2⟩ := parseTokens_cons_ok hp
     have hc2 := (stepTok_inv parseEnv st st2 hc _ h1).1
     simp only [cfgTexts, cfgsOf, List.map_cons, List.cons.injEq] at hcw
     obtain ⟨k', hk'⟩ : ∃ k', cd' = number k' (cd'.map (·.2)) := hnum (.test lang cfg' cm' cd') (by simp)
     obtain ⟨st2', h1', hc2'⟩ := stepTok_test_ok parseEnv st' hc' lang cfg' cm' cd'
-      (testCfgOk_written hcw.1 (hg cfg (by simp [cfgsOf])) (stepTok_test_cfg h1))
+      (testCfgOk_written hcw.1 (stepTok_test_cfg h1))
       (Or.inr ⟨k', splitLines g, by rw [← hcd']; exact hk', hgens k g hgk⟩)
     obtain ⟨st1', hh⟩ := ih st2 st2' st1 hc2 hc2' h2 hcw.2
-      (fun c hc0 => hg c (by simp [cfgsOf, hc0])) hgens (fun t ht => hnum t (by simp [ht]))
+      hgens (fun t ht => hnum t (by simp [ht]))
     exact ⟨st1', parseTokens_cons_of h1' hh⟩
 
 theorem expOk_of_compile {o : Markdown.Line} {e : CExp} (h : compile o = .ok e) : expOk o = true := by
@@ -312,8 +310,7 @@ theorem written_parses {isOther : Char → Bool} (hC : AsciiContract isOther) {c
     {runs : List Ran} {text : List Char} {results : List Gen.UpdResult}
     (h : updateDocument isOther content runs = .updated text results)
     (hcr : NoStrayCR content) {p : Parsed} (hp : parseMarkdown parseEnv content = .ok p)
-    (hcodes : ∀ r ∈ runs, 0 ≤ r.code ∧ r.code ≤ 255) (hq : QuantFree content results)
-    (hcb : CfgBlankLed content) :
+    (hcodes : ∀ r ∈ runs, 0 ≤ r.code ∧ r.code ≤ 255) (hq : QuantFree content results) :
     ∃ p', parseMarkdown parseEnv text = .ok p' := by
   have hf := frontClosed_of_updated h
   obtain ⟨gens, hg, hrr, hcw⟩ := run_reread_cfg h hcr hf
@@ -333,7 +330,7 @@ theorem written_parses {isOther : Char → Bool} (hC : AsciiContract isOther) {c
     | ok st => exact ⟨st, rfl⟩
   obtain ⟨st, hst⟩ := hpt
   obtain ⟨st1', hst'⟩ := parseTokens_reread hrr {} {} st ⟨rfl, rfl, rfl, rfl, rfl⟩ ⟨rfl, rfl, rfl, rfl, rfl⟩ hst hcw
-    hcb hgens hnum
+    hgens hnum
   refine ⟨{ docConfigs := st1'.docConfigs, tests := st1'.lp.testcases }, ?_⟩
   unfold parseMarkdown parseLines
   have e : tokenize parseEnv.languages (splitLines text) = .ok (docToks text) := tokenize_docToks text
@@ -347,11 +344,10 @@ theorem run_idempotent_final {isOther : Char → Bool} (hC : AsciiContract isOth
     {runs : List Ran} {text : List Char} {results : List Gen.UpdResult}
     (h : updateDocument isOther content runs = .updated text results)
     (hcr : NoStrayCR content) {p : Parsed} (hp : parseMarkdown parseEnv content = .ok p)
-    (hcodes : ∀ r ∈ runs, 0 ≤ r.code ∧ r.code ≤ 255) (hq : QuantFree content results)
-    (hcb : CfgBlankLed content) :
+    (hcodes : ∀ r ∈ runs, 0 ≤ r.code ∧ r.code ≤ 255) (hq : QuantFree content results) :
     ∃ rs, updateDocument isOther text runs = .unchanged rs := by
-  obtain ⟨p', hp'⟩ := written_parses hC h hcr hp hcodes hq hcb
-  exact run_idempotent_guarded hC h hcr (frontClosed_of_updated h) hp hp' hcodes hq hcb
+  obtain ⟨p', hp'⟩ := written_parses hC h hcr hp hcodes hq
+  exact run_idempotent_guarded hC h hcr (frontClosed_of_updated h) hp hp' hcodes hq
 
 /-- **U3** without the guard `FrontClosed` -/
 theorem run_same_commands_final {isOther : Char → Bool} (hC : AsciiContract isOther) {content : List Char}
